@@ -89,6 +89,11 @@ type c07IfaceThenScalars struct {
 	I time.Time
 }
 
+type c07WithArrays struct {
+	A [3]int
+	S [2]string
+}
+
 type c07Unexported struct {
 	a int
 	B int
@@ -169,6 +174,8 @@ var c07Templates = map[string]func() interface{}{
 	// self-referential, valid and with unsupported members
 	"iface-then-scalars":   func() interface{} { return c07IfaceThenScalars{} },
 	"*iface-then-scalars":  func() interface{} { return &c07IfaceThenScalars{} },
+	"[][2]string":          func() interface{} { return [][2]string{} },
+	"struct-with-arrays":   func() interface{} { return c07WithArrays{} },
 	"list":                 func() interface{} { return c07List{} },
 	"*list":                func() interface{} { return &c07List{} },
 	"self-chan":            func() interface{} { return c07SelfChanAfter{} },
